@@ -4,14 +4,14 @@
 # against it: expected OK (no false alarm). Keeps the patch under /verif/refactors/<pid>/.
 export GOFLAGS=-mod=mod GOPROXY=off GOSUMDB=off GOTOOLCHAIN=local
 for pid in "$@"; do
-  wt=/tmp/wtf_$pid
+  wt=${WTPREFIX:-/tmp/wtf_}$pid
   [ -d $wt/_refactor ] || { echo "$pid: no refactoring in $wt"; continue; }
   (cd $wt && go build ./... && go build -tags verif ./... ) || { echo "$pid: does not build"; continue; }
   pv=/tmp/tryref_verif_$pid
   mkdir -p $pv; rsync -a --delete --exclude .git --exclude build --exclude 'coq/cases' /verif/ $pv/
   v=$(cd $pv && VERIF_REPO=$wt ./check $pid 2>$pv/check.err | grep -E "^(OK|VIOLATION|ERROR)" | cut -c1-160)
   echo "$pid: $v"
-  mkdir -p /verif/refactors/$pid; cp $wt/_refactor/* /verif/refactors/$pid/
+  mkdir -p /verif/${REFDIR:-refactors}/$pid; cp $wt/_refactor/* /verif/${REFDIR:-refactors}/$pid/
   case "$v" in OK*) ;; *) mkdir -p /verif/build/replays/refactor_$pid; cp $pv/build/replays/${pid}_* /verif/build/replays/refactor_$pid/ 2>/dev/null; grep BROKEN $pv/check.err | head -5;; esac
   rm -rf $pv
 done
